@@ -46,9 +46,12 @@ def run(ctx):
                     c = fa.consts(0.0 if rdep else iota, R0)
                     if rdep:
                         c.iota = iof
-                    for (nprocs, coords) in (([1], [[0]]), ([2], [[0], [1]]), ([3], [[2]])):
+                    # (process grid, rank coordinates, dimension ordering): the radius first (the driver's layout) or second
+                    for (nprocs, coords, order_) in (([1], [[0]], [0, 2, 1]), ([2], [[0], [1]], [0, 2, 1]), ([3], [[2]], [0, 2, 1]),
+                                                     ([1, 2], [[0, 1]], [2, 0, 1])):
                         for rc in coords:
-                            lay = Layout("v_parallel_1d", nprocs, [0, 2, 1], eta[:3], rc)
+                            lay = Layout("v_parallel_1d", nprocs, order_, eta[:3], rc)
+                            rpos = order_.index(0)
                             try:
                                 pg = ParallelGradient(L.basis, eta, lay, c, order)
                             except Exception as ex:
@@ -58,7 +61,7 @@ def run(ctx):
                             phi_r = L.f.T.copy()                # [z, theta]
                             # two sweeps over the local radii on the SAME object (the driver calls it for every radius twice per
                             # time step): a call must not depend on earlier calls
-                            for li, gr in [(a_, b_) for _sweep in range(2) for a_, b_ in enumerate(range(lay.starts[0], lay.ends[0]))]:
+                            for li, gr in [(a_, b_) for _sweep in range(2) for a_, b_ in enumerate(range(lay.starts[rpos], lay.ends[rpos]))]:
                                 der = np.full_like(phi_r, np.nan)
                                 try:
                                     pg.parallel_gradient(phi_r, li, der)
@@ -80,7 +83,7 @@ def run(ctx):
                                 err = float(np.max(np.abs(der - want)))
                                 worst = max(worst, err)
                                 ncase += 1
-                                ctx.count((order, sp.key(), nz, iota, tuple(nprocs), tuple(rc), gr))
+                                ctx.count((order, sp.key(), nz, iota, tuple(nprocs), tuple(rc), tuple(order_), gr))
                                 if not err <= 1e-8:
                                     ctx.violation({"kind": "value", "order": order, "iota_zero": iota == 0.0, "iota_r_dependent": rdep, "distributed": nprocs != [1], "path": sp.kind},
                                                   "parallel_gradient (order %d, local radius index %d = global %d, layout %s rank %s) deviates by %g from "
